@@ -202,6 +202,10 @@ class Fn:
             return self.call(e)
         if isinstance(e, ast.IfExp):
             c, tc = self.expr(e.test)
+            if c == "true":
+                return self.expr(e.body)
+            if c == "false":
+                return self.expr(e.orelse)
             saved_facts = set(self.facts)
             self.facts |= self.facts_of(e.test, True)
             a, ta = self.expr(e.body)
@@ -352,6 +356,10 @@ class Fn:
         if pat is None and isinstance(f, ast.Attribute) and isinstance(f.value, ast.Call) and dotted(f.value.func) == "super" \
                 and not f.value.args and not f.value.keywords:
             pat = "super()." + f.attr
+        if pat == "hasattr" and len(e.args) == 2 and isinstance(e.args[1], ast.Constant) \
+                and [dotted(e.args[0]), e.args[1].value] in self.spec.get("has_attrs", []):
+            self.notes.append("hasattr(%s, %r) is declared true (CPython >= 3.10)" % (dotted(e.args[0]), e.args[1].value))
+            return "true", "bool"
         if pat is not None and pat in self.calls:
             head, argtys, rty = self.calls[pat]
             args = [self.expr(a) for a in e.args]
@@ -882,6 +890,30 @@ SPECS = [
                 "build_metric_action": ("gen_build_metric_action", ["str", "args", "metrics"], "option gaction"),
                 "build_span_action": ("gen_build_span_action", ["str", "args"], "option gaction"),
                 "Trigger": ("mk_trigger", ["loc", "list gaction"], "gtrigger")}),
+    # ---- the trace hooks (C14)
+    dict(group="Hooks", name="gen_handler_start", path="processor/trigger_handler.py", cls="TriggerHandler", func="start",
+         params="(no_trace : bool) (inert hooks_installed : bool) (saved_sys saved_thr sys_hook thr_hook : nat)",
+         ret="bool * bool * nat * nat * nat * nat", args=["self"], falls_off=True,
+         env={"self._config.NO_TRACE": ("no_trace", "bool"), "self.trace_call": ("AGENT", "nat"), "threading": ("tt", "unit")},
+         calls={"sys.gettrace": ("id {hook.sys}", [], "nat"), "threading.gettrace": ("id {hook.thr}", [], "nat"),
+                }, has_attrs=[["threading", "gettrace"]],
+         state={"self.__inert": ("inert", "bool"), "self.__hooks_installed": ("hooks_installed", "bool"),
+                "self.__old_sys_trace": ("saved_sys", "nat"), "self.__old_thread_trace": ("saved_thr", "nat"),
+                "hook.sys": ("sys_hook", "nat"), "hook.thr": ("thr_hook", "nat")},
+         state_names={"self.__inert": "inert", "self.__hooks_installed": "hooks_installed", "self.__old_sys_trace": "saved_sys",
+                      "self.__old_thread_trace": "saved_thr", "hook.sys": "sys_hook", "hook.thr": "thr_hook"},
+         stmt_calls={"sys.settrace": dict(fn="set_hook", args=["nat"], updates=["hook.sys"]),
+                     "threading.settrace": dict(fn="set_hook", args=["nat"], updates=["hook.thr"])}),
+    dict(group="Hooks", name="gen_handler_shutdown", path="processor/trigger_handler.py", cls="TriggerHandler", func="shutdown",
+         params="(inert hooks_installed : bool) (saved_sys saved_thr sys_hook thr_hook : nat)",
+         ret="bool * bool * nat * nat * nat * nat", args=["self"], falls_off=True, env={},
+         state={"self.__inert": ("inert", "bool"), "self.__hooks_installed": ("hooks_installed", "bool"),
+                "self.__old_sys_trace": ("saved_sys", "nat"), "self.__old_thread_trace": ("saved_thr", "nat"),
+                "hook.sys": ("sys_hook", "nat"), "hook.thr": ("thr_hook", "nat")},
+         state_names={"self.__inert": "inert", "self.__hooks_installed": "hooks_installed", "self.__old_sys_trace": "saved_sys",
+                      "self.__old_thread_trace": "saved_thr", "hook.sys": "sys_hook", "hook.thr": "thr_hook"},
+         stmt_calls={"sys.settrace": dict(fn="set_hook", args=["nat"], updates=["hook.sys"]),
+                     "threading.settrace": dict(fn="set_hook", args=["nat"], updates=["hook.thr"])}),
     # ---- metric actions (C17)
     dict(group="Metrics", name="gen_has_metric_processor", path="processor/context/metric_action.py", cls="MetricActionContext", func="__has_metric_processor",
          params="(has_processor : bool)", ret="bool", args=["self"], env={"self.trigger_context.config.has_metric_processor": ("has_processor", "bool")}),
@@ -1028,6 +1060,7 @@ GROUPS = {           # generated file -> (imports, which properties' theorems ar
     "Service": ("From Deep Require Import Base ConfigSvc PureSupport.", ["C12", "C13"]),
     "Callbacks": ("From Deep Require Import Base PureSupport.", ["C15"]),
     "Metrics": ("From Deep Require Import Base Config PureSupport.", ["C17"]),
+    "Hooks": ("From Deep Require Import Base Lifecycle PureSupport.", ["C14"]),
 }
 HEADER = '''(* GENERATED by harness/translate/pure.py from /repo/src/deep - do not edit.
    Each definition is the statement-by-statement translation of one pure function of the agent. *)
